@@ -246,6 +246,9 @@ def reeval(chk, prog, other, pred, as_rule, floor_name=None, floor=0, _cache={})
             return []               # mutual dependence (C03 <-> C04): the rules of `other` are being evaluated further up this chain
         if ck not in _cache:
             mod = importlib.import_module("sa.rules." + other)
+            # the names the other module's rules read must exist, exactly as when that module runs as a check of its own
+            from .. import main as _main
+            _main.check_anchors(other, prog)
             sub = type(chk)(other, chk.tier)
             active.append(other)
             try:
